@@ -53,6 +53,11 @@ def run(ctx):
     r2_intervals(ctx)
     B = r3_arithmetic(ctx)
     r4_delegation(ctx)
+    from . import c16
+    ctx.alias = {'R2': 'R5', 'R3': 'R5'}
+    c16.r2_octave(ctx)           # transpose() reads and writes pitches with the Humdrum codec: it must be the exact inverse pair
+    c16.r3_alphabets(ctx)
+    ctx.alias = {}
     ctx.extra['base'] = B
 
 
